@@ -215,3 +215,59 @@ def rebuild_then_repeat(ctx, report):
                            {"store": kind, "path_kind": pk})
             finally:
                 shutil.rmtree(root, ignore_errors=True)
+
+
+def restored_timestamps(ctx, report):
+    """Files whose timestamps were set by a restore / a reproducible build rather than by the clock (the epoch itself, one second after
+    it, a date in 1970, ...), "never"/"always" markers as fresh_time or as a source's date: a file dated at the epoch EXISTS, so values
+    newer than it are up to date; the repeated run does nothing; fresh_time=datetime.max rebuilds everything, datetime.min nothing."""
+    import datetime as dt
+    import os
+    import shutil
+    import tempfile
+    uj = core.use_repo()
+    import uberjob.stores as st
+    for stamps in ((0, 1, 2), (0.0, 86400, 2 ** 31 + 7), (1, 0.5, 3), (5, 7, 0), (3600, 7200, 10800)):
+        for pk in ("str", "pathlib"):
+            root = tempfile.mkdtemp(prefix="ujrestored_")
+            try:
+                import pathlib
+                conv = (lambda p: pathlib.Path(p)) if pk == "pathlib" else (lambda p: p)
+                P = lambda n: os.path.join(root, n)
+                calls = []
+                plan, reg = uj.Plan(), uj.Registry()
+                src = reg.source(plan, st.PathSource(conv(P("in.txt"))))
+                lit = reg.source(plan, st.LiteralSource(5, dt.datetime.min))
+                a = plan.call(lambda p, k: calls.append("a") or int(open(p).read()) + k, src, lit)
+                b = plan.call(lambda x: calls.append("b") or str(x * 2), a)
+                reg.add(a, st.JsonFileStore(conv(P("a.json"))))
+                reg.add(b, st.TextFileStore(conv(P("b.txt"))))
+                for name, content, ts in (("in.txt", "1", stamps[0]), ("a.json", "6", stamps[1]), ("b.txt", "12", stamps[2])):
+                    with open(P(name), "w") as f:
+                        f.write(content)
+                    os.utime(P(name), (ts, ts))
+                in_order = stamps[0] < stamps[1] < stamps[2]
+                rebuilt_first = [] if in_order else (["a", "b"] if stamps[0] > stamps[1] else ["b"])
+                log = []
+                for step, fresh in (("run", None), ("repeated run", None), ("run with fresh_time=datetime.min", dt.datetime.min), ("run with fresh_time=datetime.max", dt.datetime.max),
+                                    ("repeated run", None)):
+                    del calls[:]
+                    before = {n: os.stat(P(n)).st_mtime_ns for n in ("a.json", "b.txt")}
+                    try:
+                        uj.run(plan, registry=reg, progress=None, max_workers=1, fresh_time=fresh)
+                        oc = "ok"
+                    except BaseException as e:      # noqa
+                        oc = "raised %s: %s" % (type(e).__name__, e)
+                    after = {n: os.stat(P(n)).st_mtime_ns for n in ("a.json", "b.txt")}
+                    log.append((step, oc, sorted(calls), sorted(n for n in after if after[n] != before[n])))
+                ctx.case(("restored-timestamps", stamps, pk))
+                rw = [{"a": "a.json", "b": "b.txt"}[c] for c in rebuilt_first]
+                want = [("run", "ok", rebuilt_first, rw), ("repeated run", "ok", [], []), ("run with fresh_time=datetime.min", "ok", [], []),
+                        ("run with fresh_time=datetime.max", "ok", ["a", "b"], ["a.json", "b.txt"]), ("repeated run", "ok", [], [])]
+                if log != want:
+                    bad = next(i for i in range(len(want)) if log[i] != want[i])
+                    report("restored-timestamps", "files in.txt / a.json / b.txt last modified %r seconds after the epoch (a <- in.txt + a literal dated datetime.min, b <- a): step %d, %s: "
+                           "(outcome, calls executed, files rewritten) = %r; expected %r" % (stamps, bad + 1, want[bad][0], log[bad][1:], want[bad][1:]),
+                           {"stamps": list(stamps), "path_kind": pk, "log": [list(x) for x in log]})
+            finally:
+                shutil.rmtree(root, ignore_errors=True)
